@@ -199,10 +199,12 @@ def c_oentry(o):
 def c_obs(ob):
     if ob is None:
         return 'None'
-    return f"(Some {{| o_ops := {clist([c_oentry(o) for o in ob['ops']])}; o_duration := {cz(ob['duration'])} |}})"
+    comps = clist([f"{{| oc_s := {cz(x['s'])}; oc_d := {cz(x['d'])}; oc_n := {cz(x['n'])}; oc_lo := {cz(x['lo'])}; oc_hi := {cz(x['hi'])}; oc_first := {cz(x['first'])} |}}"
+                   for x in ob.get('comps', [])])
+    return f"(Some {{| o_ops := {clist([c_oentry(o) for o in ob['ops']])}; o_duration := {cz(ob['duration'])}; o_comps := {comps} |}})"
 
 
-IMPOSSIBLE = ("{| c_prog := []; c_env := mk_env 0 0 0 0 []; c_plain := Some {| o_ops := []; o_duration := 1 |}; "
+IMPOSSIBLE = ("{| c_prog := []; c_env := mk_env 0 0 0 0 []; c_plain := Some {| o_ops := []; o_duration := 1; o_comps := [] |}; "
               "c_plain_dur_first := None; c_unrolled := None; c_unrolled_twice := None; c_stable := false; c_reps_after := [] |}")
 
 
